@@ -10,6 +10,7 @@ mod p_loader;
 mod p_editword;
 mod p_infer;
 mod p_lines;
+mod p_textfn;
 mod p_multigen;
 mod p_pipe;
 mod p_proc;
@@ -48,6 +49,7 @@ fn component(name: &str) -> (ExecFn, GenFn) {
         "chat" => (p_chat::exec, p_chat::gen),
         "infer" => (p_infer::exec, p_infer::gen),
         "lines" => (p_lines::exec, p_lines::gen),
+        "textfn" => (p_textfn::exec, p_textfn::gen),
         "ws" => (p_ws::exec, p_ws::gen),
         "bpetrain" => (p_bpetrain::exec, p_bpetrain::gen),
         "tok" => (p_tok::exec, p_tok::gen),
